@@ -46,7 +46,7 @@ PkgName(decl, declName, of, op, ex, cf) ==
   IF op \in {":nm", "path:nm"} THEN "nm"
   ELSE IF dir = decl THEN declName                           \* the declaring package already lives there
   ELSE IF ex = "same" THEN GuessAlias(Last(dir))
-  ELSE IF ex = "other" THEN "othername"
+  ELSE IF ex \in {"other", "other-errors"} THEN "othername"
   ELSE IF op = "path" THEN "zz"                              \* output:package v.test/f/zz
   ELSE GuessAlias(Last(dir))
 ValidPlace(decl, of, ex, cf) == /\ (of = "../o/x.go" => decl # <<>>)
